@@ -53,6 +53,7 @@ class ServerWorld:
         self.is_async = mode == 'asyncio'
         self.background = []
         self.trace = []           # free for the property harness
+        self.escaped = []         # BaseExceptions (not Exception) that came out of a server entry point
         self.eio_log = _Quiet()
         opts.setdefault('async_handlers', False)
         if self.is_async:
@@ -102,6 +103,11 @@ class ServerWorld:
                     errors.append(type(ex).__name__)
                     if not fut.done():
                         fut.set_result(None)
+                except BaseException as ex:   # noqa
+                    self._escaped(ex, 'background task')
+                    errors.append(type(ex).__name__)
+                    if not fut.done():
+                        fut.set_result(None)
                 self.loop.run_until_complete(asyncio.sleep(0))
             else:
                 target, args, kwargs = item
@@ -109,18 +115,33 @@ class ServerWorld:
                     target(*args, **kwargs)
                 except Exception as ex:   # noqa
                     errors.append(type(ex).__name__)
+                except BaseException as ex:   # noqa
+                    self._escaped(ex, 'background task')
+                    errors.append(type(ex).__name__)
         return errors
+
+    def _escaped(self, ex, where):
+        """A BaseException that is not an Exception (asyncio.CancelledError, GeneratorExit, ...) came out of a
+        server entry point: the harness survives it (the residue probes must still run) and records it; the
+        interpreter's own exits are passed on."""
+        if isinstance(ex, (KeyboardInterrupt, SystemExit)):
+            raise ex
+        self.escaped.append((where, type(ex).__name__))
 
     # ---- running API calls
     def run(self, fn, *a, **k):
         """Call a server API (sync function or coroutine function); returns ('ok', value) or
-        ('exc', class name).  Does not settle background tasks."""
+        ('exc', class name).  Does not settle background tasks.  A BaseException (e.g. a CancelledError
+        that a handler let escape and the server did not absorb) is recorded in `escaped` as well."""
         try:
             r = fn(*a, **k)
             if asyncio.iscoroutine(r):
                 r = self.loop.run_until_complete(r)
             return ('ok', r)
         except Exception as ex:   # noqa
+            return ('exc', type(ex).__name__)
+        except BaseException as ex:   # noqa
+            self._escaped(ex, getattr(fn, '__name__', 'call'))
             return ('exc', type(ex).__name__)
 
     def api(self, name, *a, **k):
